@@ -2,5 +2,5 @@ From Coq Require Import ExtrOcamlBasic.
 From MV Require Import Sess.SessModel.
 Extraction Language OCaml.
 Cd "../ocaml/gen".
-Extraction "m_sess.ml" decode run encode_app_ok.
+Extraction "m_sess.ml" decode run encode_app_ok dtls_getout.
 Cd "../../coq".
